@@ -869,6 +869,10 @@ class SyncHuge(Suite):
             for chunks in ([0], [65536], [32768, 1]):
                 for oi in range(6):
                     yield {'size': size, 'chunks': chunks, 'ops': oi}
+            if size == 100000:
+                # a source that hands out ONE byte per call: thousands of consecutive short reads inside one read
+                for oi in range(6):
+                    yield {'size': size, 'chunks': [1], 'ops': oi}
 
     def run(self, case):
         size = case['size']
